@@ -780,18 +780,26 @@ def _proportional(R, A):
     return c, _err(R, c * A)
 
 
-def check_graph_embed(A, mean, res, case):
-    res.n += 1
-    res.stats["calls:graph_embed"] += 1
+def check_graph_embed(A, mean, res, case, traceless=False):
+    """traceless=True: the documented option make_traceless - the matrix that is embedded is A - tr(A)/n * 1 (counted under stats
+    only, so that the closed-form size of the enumeration stays the one of the plain calls)"""
     k = A.shape[0]
-    cls = spectrum_class(np.linalg.svd(A, compute_uv=False)) if k > 1 else "simple"
+    if traceless:
+        res.stats["calls:graph_embed(make_traceless=True)"] += 1
+        A0, A = A, A - np.trace(A) * np.eye(k) / k
+        cls = spectrum_class(np.linalg.svd(A, compute_uv=False))  # same classes as the plain calls: the degenerate complex ones hit the recorded takagi defect
+    else:
+        res.n += 1
+        res.stats["calls:graph_embed"] += 1
+        A0 = A
+        cls = spectrum_class(np.linalg.svd(A, compute_uv=False)) if k > 1 else "simple"
     try:
-        vals, U = dec.graph_embed(A.copy(), mean_photon_per_mode=mean)
+        vals, U = dec.graph_embed(A0.copy(), mean_photon_per_mode=mean, **({"make_traceless": True} if traceless else {}))
     except Exception as e:
         res.violation(f"C17|graph_embed|raised-on-valid|{cls}", f"graph_embed(A, {mean}) raised {type(e).__name__}: {e} for the adjacency matrix A = {show(A)}", case)
         return
     vals, U = np.asarray(vals), np.asarray(U)
-    desc = f"graph_embed(A, mean_photon_per_mode={mean}), A = {show(A)} ({cls}) returned r = {show(vals)}, U = {show(U)}"
+    desc = f"graph_embed({'A0, make_traceless=True, ' if traceless else 'A, '}mean_photon_per_mode={mean}), {'A0 = ' + show(A0) + ', A = A0 - tr(A0)/n = ' if traceless else 'A = '}{show(A)} ({cls}) returned r = {show(vals)}, U = {show(U)}"
     if vals.shape != (k,) or U.shape != (k, k) or np.iscomplexobj(vals) or not np.all(np.isfinite(vals)):
         res.violation(f"C17|graph_embed|structure|{cls}", f"{desc}: wrong shapes / non-real or non-finite squeezing", case)
         return
@@ -1059,6 +1067,11 @@ def work(task):
             res.nt += 1
             for mean in MEANS:
                 check_graph_embed(A, mean, res, {"family": "graph", "routine": "graph_embed", "M": enc(A), "mean": mean, "origin": f"graph index {idx} on {k} nodes, edge weights {WEIGHTS[1:base]}"})
+            if k >= 2:
+                # the same graphs with self-loops (a loop on node 0; loops of weight 1/k .. 1 on all nodes), embedded with make_traceless
+                for dname, D in (("loop on node 0", np.diag([1.0] + [0.0] * (k - 1))), ("loops of weight (i+1)/k", np.diag([(i + 1) / k for i in range(k)]))):
+                    for mean in MEANS:
+                        check_graph_embed(A + D, mean, res, {"family": "graph", "routine": "graph_embed", "traceless": True, "M": enc(A + D), "mean": mean, "origin": f"graph index {idx} on {k} nodes plus {dname}, make_traceless=True"}, traceless=True)
     elif kind == "BIP":
         _, k, base, lo, hi = task
         for idx in range(lo, hi):
@@ -1291,7 +1304,7 @@ def replay(case):
     elif fam == "bloch":
         check_bloch(M, res, case)
     elif fam == "graph":
-        check_graph_embed(M, case["mean"], res, case)
+        check_graph_embed(M, case["mean"], res, case, traceless=bool(case.get("traceless")))
     elif fam == "bipartite":
         check_bipartite(M, case["mean"], res, case)
     elif fam == "invalid":
